@@ -840,6 +840,38 @@ func gen(a Args, out *Out) {
 		emit("truncate", List(Int(11), Int(int64(ver)), Int(int64(cidx)), Uint(keyseed), Bytes(frame), Int(1), Int(0), Int(int64(len(frame)))))
 		out.CountN("truncations", len(frame))
 	}
+	// 2b. the extremes of the checksum VALUE: a frame whose true CRC-32 is 0 (four body bytes are
+	// chosen so; verified here) with all its single-bit flips and truncations, for both formats
+	for _, ver := range []int{1, 2} {
+		hs := HeaderSize(ver)
+		nref := 0
+		if ver == 2 {
+			nref = 1
+		}
+		payload := append(refsBytes(rng, nref), rng.Bytes(6+rng.Intn(10))...)
+		f := craft(ver, 1, 0x20, byte(nref), uint16(rng.Next()), uint32(rng.Next()), uint32(rng.Next()), append(payload, 0, 0, 0, 0), -1, false)
+		covered := append(append([]byte(nil), f[:hs-4]...), f[hs:len(f)-4]...)
+		copy(f[len(f)-4:], ForgeCRC(covered, 0))
+		c := crc32.NewIEEE()
+		c.Write(f[:hs-4])
+		c.Write(f[hs:])
+		if c.Sum32() != 0 {
+			out.Note("could not build a frame with CRC-32 0 (format %d)", ver)
+			continue
+		}
+		binary.BigEndian.PutUint32(f[hs-4:], 0)
+		nbits := 8 * len(f)
+		for lo := 0; lo < nbits; lo += 64 {
+			hi := lo + 64
+			if hi > nbits {
+				hi = nbits
+			}
+			emit("bitflip-crc0", List(Int(11), Int(int64(ver)), Int(0), Uint(0), Bytes(f), Int(0), Int(int64(lo)), Int(int64(hi))))
+			out.CountN("bitflips", hi-lo)
+		}
+		emit("truncate", List(Int(11), Int(int64(ver)), Int(0), Uint(0), Bytes(f), Int(1), Int(0), Int(int64(len(f)))))
+		out.Count("frames:crc32=0")
+	}
 	// length-prefixed records: truncations
 	for i := 0; i < 6; i++ {
 		w := &wbuf{}
@@ -876,7 +908,51 @@ func gen(a Args, out *Out) {
 		} else {
 			ver := fmtc
 			typ, seq, node, cmd := byte(rng.Next()), uint16(rng.Next()), uint32(rng.Next()), uint32(rng.Next())
-			switch rng.Intn(11) {
+			switch rng.Intn(12) {
+			case 11: // a valid frame (damaged or not) whose checksum FIELD is replaced by a special value
+				f := validFrame(rng, ver, 0, 0, 1+rng.Intn(40), false)
+				hs := HeaderSize(ver)
+				nref := 0
+				if ver == 2 {
+					nref = int(f[5])
+				}
+				full := binary.BigEndian.Uint32(f[hs-4:])
+				sum := func(parts ...[]byte) uint32 {
+					c := crc32.NewIEEE()
+					for _, p := range parts {
+						c.Write(p)
+					}
+					return c.Sum32()
+				}
+				var v uint32
+				switch rng.Intn(6) {
+				case 0:
+					v = 0
+				case 1:
+					v = 0xFFFFFFFF
+				case 2:
+					v = sum(f[:hs-4]) // header only
+				case 3:
+					v = sum(f[hs:]) // payload only
+				case 4:
+					v = sum(f[:hs-4], f[hs+4*nref:]) // without the references
+				default:
+					v = sum(f[:hs], f[hs:]) // including the checksum field itself
+				}
+				if rng.Bool() { // plus damage elsewhere
+					f[hs-5] ^= 0x10
+					if len(f) > hs {
+						f[len(f)-1] ^= 1
+					}
+					full = sum(f[:hs-4], f[hs:])
+				}
+				binary.BigEndian.PutUint32(f[hs-4:], v)
+				data = f
+				cidx = 0
+				kind = "crc-replaced"
+				if v != full {
+					expect = 1
+				}
 			case 10: // marshalling flags on an EMPTY body (V2: nothing after the references)
 				fl := byte(rng.PickInt(1, 2, 3)) | byte(rng.PickInt(0, 0x10, 0x20))
 				nref := 0
